@@ -21,6 +21,9 @@ type Engine struct {
 	pkgs      []*ssa.Package
 	allPkgs   []*ssa.Package
 	funcs     map[string]*ssa.Function // short name -> function (module functions incl. anonymous)
+	infos     map[*types.Package]*types.Info
+	refNames  map[string]fnNames
+	aliasMemo map[string]map[string]string
 	cs        *Contracts
 	pkgShort  [][2]string // (path+".", short+".") sorted by length desc
 	stableNN  map[string]bool
@@ -60,7 +63,13 @@ func loadEngine(repo string, verifDir string) (*Engine, error) {
 	}
 	prog, spkgs := ssautil.AllPackages(pkgs, ssa.InstantiateGenerics|ssa.GlobalDebug)
 	prog.Build()
-	e := &Engine{repo: repo, prog: prog, fset: prog.Fset, pkgs: spkgs, funcs: map[string]*ssa.Function{}, stableNN: map[string]bool{}, modPkgSet: map[*types.Package]bool{}}
+	infos := map[*types.Package]*types.Info{}
+	packages.Visit(pkgs, nil, func(p *packages.Package) {
+		if p.Types != nil && p.TypesInfo != nil {
+			infos[p.Types] = p.TypesInfo
+		}
+	})
+	e := &Engine{repo: repo, prog: prog, fset: prog.Fset, pkgs: spkgs, funcs: map[string]*ssa.Function{}, infos: infos, stableNN: map[string]bool{}, modPkgSet: map[*types.Package]bool{}}
 	seen := map[string]bool{}
 	for _, p := range prog.AllPackages() {
 		e.allPkgs = append(e.allPkgs, p)
@@ -111,6 +120,7 @@ func loadEngine(repo string, verifDir string) (*Engine, error) {
 	for _, fc := range e.cs.Funcs {
 		fc.computeProps()
 	}
+	e.loadRefNames(verifDir)
 	e.known = loadKnown()
 	for i := range e.known.Findings {
 		f := &e.known.Findings[i]
